@@ -337,6 +337,13 @@ def revisit_family(atom='a'):
     return [w(c) for c in chains for w in past]
 
 
+_A, _B = ('atom', 'a'), ('atom', 'b')
+CONFUSABLE = [(('initially', _A), ('trigger', None, _A)), (('initially', _A), ('since', None, _A)), (('finally', _A), ('release', None, _A)), (('finally', _A), ('until', None, _A)),
+              (('prev', None, _A), ('since', None, _A)), (('wprev', None, _A), ('trigger', None, _A)), (('next', None, _A), ('until', None, _A)), (('wnext', None, _A), ('release', None, _A)),
+              (('seqprev', _A, _B), ('and', ('prev', None, _A), _B)), (('eqv', _A, _B), ('impl', _A, _B)), (('impr', _A, _B), ('since', _A, _B)), (('impl', _A, _B), ('until', _A, _B)),
+              (('prev', 2, _A), ('prev', None, ('prev', None, _A))), (('not', ('not', _A)), _A)]
+
+
 def sibling_pairs():
     """fixed family: a formula and every formula that differs from it in one weak / strong or dual flag"""
     import random as _r, json as _j
@@ -349,4 +356,6 @@ def sibling_pairs():
             sibs.add(sibling(_r.Random(j), f))
         for g in sorted(sibs - {f}, key=_j.dumps):
             out.append((f, g))
+    # ... and operators whose symbols share characters (<< and <*, >> and >*, < and <?, <: and <*, ...): two formulas whose texts are a character apart
+    out += CONFUSABLE
     return out
